@@ -27,6 +27,10 @@ def check(run, M, tier):
                    "Compose([Multiply(self.oshape, a), self]), Add([self, B]), (-1)*self, self + (-B), apply(input)")
     run.rule("G2", "unrolled over three symbolic children the _apply of Compose/Add/Hstack/Vstack/Diag equals the block-matrix action "
                    "(right-to-left composition, sum, block row/column/diagonal split at the stored indices)")
+    run.rule("G2a", "Add/Hstack sum their block results out of place: an accumulator started from the scalar 0 and updated with `+=` takes the dtype of the first "
+                    "block result, so adding a complex block result to a real one raises instead of adding")
+    run.rule("G2d", "the stacked output buffer can hold every block result: its dtype derives from the block results (allocate-or-widen before each store), never from the input alone")
+    run.rule("G2h", "an allocate-or-widen helper returns a fresh buffer of the requested shape, or the buffer it was given (possibly cast to the common result type)")
     run.rule("G3", "every returning path of Linop.apply passes _check_ishape(input), output = _apply(input), _check_oshape(output) in this order; "
                    "the shape guards raise on any mismatching dimension; _apply has no other caller")
     run.rule("G4", "constructors validate operand shapes (adjacent shapes for Compose, common shapes for Add/Hstack/Vstack, rank and off-axis sizes for stacking) before super().__init__")
@@ -36,6 +40,7 @@ def check(run, M, tier):
     base = M.cls("sigpy.linop.Linop")
     _g1(run, M, alg, base)
     _g2(run, M, alg)
+    _g2a(run, M)
     _g3(run, M, base)
     _g4(run, M, alg)
     _g5(run, M)
@@ -183,17 +188,17 @@ def osl(op, lo, hi):
     return tuple([slice(None)] * axis + [slice(lo, hi)] + [slice(None)] * (ndim - axis - 1))
 output = xp.empty(self.oshape, dtype=input.dtype)
 if self.iaxis is None:
-    pa = A(input[0:i1].reshape(A.ishape)).ravel()
-    pb = B(input[i1:i2].reshape(B.ishape)).ravel()
-    pc = C(input[i2:None].reshape(C.ishape)).ravel()
+    pa = A(input[0:i1].reshape(A.ishape))
+    pb = B(input[i1:i2].reshape(B.ishape))
+    pc = C(input[i2:None].reshape(C.ishape))
 else:
     pa = A(input[isl(A, 0, i1)])
     pb = B(input[isl(B, i1, i2)])
     pc = C(input[isl(C, i2, None)])
 if self.oaxis is None:
-    output[0:o1] = pa
-    output[o1:o2] = pb
-    output[o2:None] = pc
+    output[0:o1] = pa.ravel()
+    output[o1:o2] = pb.ravel()
+    output[o2:None] = pc.ravel()
 else:
     output[osl(A, 0, o1)] = pa
     output[osl(B, o1, o2)] = pb
@@ -237,11 +242,203 @@ def _g2(run, M, alg):
                         "path under [%s] has no counterpart in the block-matrix reference" % cond_text(o.conds), stmt="G2:%s:%s" % (cname, cond_text(o.conds)))
                 continue
             r = match[0]
+            if cname in ("Vstack", "Diag"):
+                _g2_stores(run, M, f, cname, o, r)
+                continue
             ok = T.enc(_t(o.ret)) == T.enc(_t(r.ret))
             run.check(ok, "G2", "%s._apply[%s]" % (cname, cond_text(o.conds)), f.loc(),
                       "action on (A, B, C) equals the block-matrix reference",
                       "%s._apply over children (A, B, C) computes %s ; the block-matrix action is %s" % (cname, _show_long(o.ret), _show_long(r.ret)),
                       stmt="G2:%s:%s" % (cname, cond_text(o.conds)))
+
+
+CTL_G2A = """
+def _apply(self, input):
+    output = 0
+    for linop in self.linops:
+        output += linop(input)
+    acc = 0
+    for linop in self.linops:
+        acc = acc + linop(input)
+    return output
+"""
+
+
+def _inplace_sums(fnode):
+    """AugAssign(+/-) statements on a local that the function initialises with a numeric constant and that add an array-valued call"""
+    from ..model import walk_no_nested
+    init = {}
+    for n in walk_no_nested(fnode):
+        if isinstance(n, ast.Assign) and len(n.targets) == 1 and isinstance(n.targets[0], ast.Name) and isinstance(n.value, ast.Constant) \
+                and isinstance(n.value.value, (int, float)) and not isinstance(n.value.value, bool):
+            init[n.targets[0].id] = n
+    hits = []
+    for n in walk_no_nested(fnode):
+        if isinstance(n, ast.AugAssign) and isinstance(n.op, (ast.Add, ast.Sub)) and isinstance(n.target, ast.Name) and n.target.id in init \
+                and any(isinstance(x, ast.Call) for x in ast.walk(n.value)):
+            hits.append(n)
+    return hits
+
+
+def _g2a(run, M):
+    for cname in ("Add", "Hstack"):
+        f = M.func("sigpy.linop.%s._apply" % cname)
+        hits = _inplace_sums(f.node)
+        for n in hits:
+            run.bad("G2a", cname + "._apply", f.loc(n), "%s._apply accumulates with `%s` into a variable started from a scalar: after the first term the accumulator is "
+                    "that term's array and keeps its dtype, so a real first block followed by a complex one (Identity + FFT on a real input) raises a casting "
+                    "error instead of returning the sum" % (cname, unparse(n)), stmt=n)
+        if not hits:
+            run.ok("G2a", cname + "._apply", "block results are summed out of place", f.loc())
+    ctl = ast.parse(CTL_G2A).body[0]
+    got = [unparse(n) for n in _inplace_sums(ctl)]
+    run.control("G2a", "output = 0; output += linop(input)", True, "output += linop(input)" in got)
+    run.control("G2a", "acc = 0; acc = acc + linop(input)", False, any("acc" in g for g in got))
+
+
+def _kwargs(atom):
+    out = {}
+    for x in atom[2]:
+        v = T.dec(x)
+        a = v.single_atom() if isinstance(v, T.Poly) else None
+        if a is not None and a[0] == "app" and a[1].startswith("kw:"):
+            out[a[1][3:]] = T.dec(a[2][0])
+    return out
+
+
+def _peel_stores(term):
+    """a stacked output as (allocation, [(index, value, helper-call-or-None)]): peels setitem chains; a call of a repo helper that
+    takes the buffer as `output` (allocate-or-widen helper) is looked through -- rule G2h establishes that such a helper
+    returns a buffer holding the same elements"""
+    stores, helpers = [], []
+    t = _t(term)
+    pending_helper = None
+    while True:
+        a = t.single_atom() if isinstance(t, T.Poly) else None
+        if a is None or a[0] != "app":
+            raise Unrecognised("stacked output is not a chain of stores into an allocated buffer: %s" % T.show(t, 200))
+        if a[1] == "setitem":
+            base, idx, val = (T.dec(x) for x in a[2])
+            # the helper call (if any) that prepared the buffer for this store
+            ba = base.single_atom() if isinstance(base, T.Poly) else None
+            h = None
+            if ba is not None and ba[0] == "app" and ba[1].startswith("fn:") and "output" in _kwargs(ba):
+                h = ba
+            stores.append((idx, val, h))
+            t = base
+            continue
+        if a[1].startswith("fn:") and "output" in _kwargs(a):
+            kw = _kwargs(a)
+            helpers.append(a)
+            if kw["output"] == NONE:
+                alloc = ("helper", a[1][3:], kw.get("oshape"), None)
+                break
+            t = kw["output"]
+            continue
+        if a[1] in ("call:numpy.empty", "call:numpy.zeros"):
+            args = [T.dec(x) for x in a[2]]
+            dt = None
+            for x in args[1:]:
+                xa = x.single_atom() if isinstance(x, T.Poly) else None
+                if xa is not None and xa[0] == "app" and xa[1] == "kw:dtype":
+                    dt = T.dec(xa[2][0])
+            alloc = ("numpy", a[1][5:], args[0] if args else None, dt)
+            break
+        raise Unrecognised("stacked output is not a chain of stores into an allocated buffer: %s" % T.show(t, 200))
+    stores.reverse()
+    return alloc, stores, helpers
+
+
+def _unravel(v):
+    a = v.single_atom() if isinstance(v, T.Poly) else None
+    if a is not None and a[0] == "app" and a[1] in ("ravel", "flatten") and len(a[2]) == 1:
+        return T.dec(a[2][0])
+    return v
+
+
+def _g2_stores(run, M, f, cname, o, r):
+    """block-column / block-diagonal action = the list of (slice, block result) stores into one fresh buffer of shape self.oshape"""
+    tag = "%s._apply[%s]" % (cname, cond_text(o.conds))
+    alloc, stores, helpers = _peel_stores(o.ret)
+    ralloc, rstores, _ = _peel_stores(r.ret)
+    same = len(stores) == len(rstores) and all(T.enc(i1) == T.enc(i2) and T.enc(_t(v1)) == T.enc(_t(v2))
+                                              for (i1, v1, _), (i2, v2, _) in zip(stores, rstores))
+    run.check(same, "G2", tag, f.loc(), "stores (slice_k, block_k result) over (A, B, C) equal the block-matrix reference",
+              "%s._apply over children (A, B, C) stores %s ; the block-matrix action stores %s"
+              % (cname, "; ".join("[%s] = %s" % (T.show(i, 150), T.show(_t(v), 200)) for i, v, _ in stores),
+                 "; ".join("[%s] = %s" % (T.show(i, 150), T.show(_t(v), 200)) for i, v, _ in rstores)),
+              stmt="G2:%s:%s" % (cname, cond_text(o.conds)))
+    shape = alloc[2]
+    run.check(shape is not None and T.enc(_t(shape)) == T.enc(T.sym("self.oshape")), "G2", tag + " buffer", f.loc(),
+              "the output buffer is allocated with shape self.oshape",
+              "%s._apply allocates its output with shape %s; expected self.oshape" % (cname, T.show(shape, 120) if shape is not None else "?"),
+              stmt="G2:%s:alloc:%s" % (cname, cond_text(o.conds)))
+    # G2d: the buffer must be able to hold every block result (complex blocks on a real input are not truncated)
+    if alloc[0] == "numpy":
+        dt = alloc[3]
+        names = T.symbols(dt) if dt is not None else set()
+        from_results = dt is not None and bool(T.apps(dt, "apply"))
+        if from_results:
+            run.ok("G2d", tag, "buffer dtype derives from the block results", f.loc())
+        elif dt is None or "input" in names:
+            run.bad("G2d", tag, f.loc(), "%s._apply allocates its output buffer with dtype %s: the result of a complex-valued block applied to a real "
+                    "input is cast to real when stored (imaginary part silently dropped), so the stack no longer acts as the block matrix"
+                    % (cname, T.show(dt, 80) if dt is not None else "float (numpy default)"), stmt="G2d:%s:%s" % (cname, cond_text(o.conds)))
+        else:
+            raise Unrecognised("G2d: output dtype of %s._apply comes from %s" % (cname, T.show(dt, 120)))
+    else:
+        ok = len(helpers) == len(stores) and all(h is not None and T.enc(_t(_kwargs(h).get("output_n", NONE))) == T.enc(_t(_unravel(v)))
+                                                for _, v, h in stores)
+        _g2h(run, M, alloc[1])
+        run.check(ok, "G2d", tag, f.loc(), "before every store the buffer is passed through %s together with the block result about to be stored" % alloc[1],
+                  "%s._apply does not pass every block result through %s before storing it: a later complex block would be truncated to the dtype of the first"
+                  % (cname, alloc[1]), stmt="G2d:%s:%s" % (cname, cond_text(o.conds)))
+
+
+_G2H_DONE = set()
+
+
+def _g2h(run, M, qual):
+    """the allocate-or-widen helper returns a fresh buffer of the requested shape when given None and otherwise the same elements
+    (the buffer itself or a cast of it to the common result_type)"""
+    if (id(run), qual) in _G2H_DONE:
+        return
+    _G2H_DONE.add((id(run), qual))
+    fn = M.func(qual)
+    env = {p: T.sym(p) for p in fn.params}
+    outs = VN(M, fn).run(fn.body, State(env))
+    ok = bool(outs)
+    seen = {"alloc": False, "same": False, "widen": False}
+    for st in outs:
+        if st.status != "return":
+            ok = False
+            continue
+        v = _t(st.ret)
+        a = v.single_atom() if isinstance(v, T.Poly) else None
+        conds = [T.show(c, 100) for c in st.conds]
+        is_none = any(c == "is(output, None)" for c in conds)
+        if a is not None and a[0] == "app" and a[1].startswith("call:") and a[1].split(".")[-1] in ("empty", "zeros"):
+            args = [T.dec(x) for x in a[2]]
+            dts = [T.dec(T.from_key(x[1]).single_atom()[2][0]) for x in a[2][1:] if x[0] == "P" and T.from_key(x[1]).single_atom() and T.from_key(x[1]).single_atom()[1] == "kw:dtype"]
+            good = is_none and args and args[0] == T.sym("oshape") and dts and "output_n" in T.symbols(dts[0])
+            seen["alloc"] |= bool(good)
+            ok &= bool(good)
+        elif v == T.sym("output"):
+            ok &= not is_none
+            seen["same"] = True
+        elif a is not None and a[0] == "app" and a[1] == "astype" and T.dec(a[2][0]) == T.sym("output"):
+            dt = T.dec(a[2][1])
+            da = dt.single_atom() if isinstance(dt, T.Poly) else None
+            good = (not is_none) and da is not None and da[0] == "app" and da[1].endswith("result_type") and \
+                {"output", "output_n"} <= T.symbols(dt)
+            seen["widen"] |= bool(good)
+            ok &= bool(good)
+        else:
+            ok = False
+    ok = ok and seen["alloc"] and seen["widen"]
+    run.check(ok, "G2h", qual, fn.loc(), "returns empty(oshape, dtype of the block result) for None, else the buffer or its cast to result_type(buffer, block result)",
+              "%s is used as allocate-or-widen helper of the stacked output but its return paths are %s" % (
+                  qual, [(cond_text(st.conds), T.show(_t(st.ret), 100) if st.ret is not None else st.status) for st in outs]), stmt="G2h:" + qual)
 
 
 def _show_long(v):
